@@ -540,13 +540,16 @@ def check_bitkernels(nbits, tier):
     sym.set_family("bv")
     dim = nbits
 
-    class FakeSpace:
-        pass
+    from pymbolic.geometric_algebra import Space
+
+    def real_space(diag):
+        # a real Space object (not a stand-in: the kernel may use any attribute of it)
+        mm = np.zeros((dim, dim), dtype=object)
+        for i_ in range(dim):
+            mm[i_, i_] = diag[i_]
+        return Space(dim, mm)
     gs = [sym.var(f"g{i}", "bv", -2, 2) for i in range(dim)]
-    fs = FakeSpace()
-    fs.metric_matrix = np.zeros((dim, dim), dtype=object)
-    for i in range(dim):
-        fs.metric_matrix[i, i] = gs[i][0]
+    fs = real_space([g_[0] for g_ in gs])
     pre = ca + [c for _, cs_ in gs for c in cs_]
     ex = Explorer(pre=pre, max_paths=BOUNDS[tier]["max_paths"], timeout_ms=10000)
     for path in ex.run(lambda: _shared_metric_coeff(a, fs)):
@@ -557,8 +560,7 @@ def check_bitkernels(nbits, tier):
                 res.note = f"_shared_metric_coeff not symbolically executable ({path.exc!r}); concrete enumeration used"
                 for va in range(1 << nbits):
                     for gv in ([1, -1, 0, 2, 3, -2][:dim], [2, 3, -1, 1, -2, 1][:dim]):
-                        fs2 = FakeSpace()
-                        fs2.metric_matrix = np.diag(np.array(gv, dtype=object)) if dim else np.zeros((0, 0), dtype=object)
+                        fs2 = real_space(gv)
                         e2 = 1
                         for i in range(dim):
                             if va >> i & 1:
@@ -580,8 +582,7 @@ def check_bitkernels(nbits, tier):
         if verdict == "sat":
             va = sym.model_value(model, a)
             gv = [sym.model_value(model, g_[0]) for g_ in gs]
-            fs2 = FakeSpace()
-            fs2.metric_matrix = np.diag(np.array(gv, dtype=object)) if dim else np.zeros((0, 0), dtype=object)
+            fs2 = real_space(gv)
             e2 = 1
             for i in range(dim):
                 if va >> i & 1:
